@@ -27,14 +27,15 @@ def SoundConcl (prog : Prog) (t : Option Path) (sp : SpecSt) (r : CallRes) (w : 
 theorem setup_match (sp : SpecSt) (s : KSt) (path : Path) (made : List Path) (raised : Bool)
     (hsim : SpecSt.Sim sp s.sp) (hff : sp.failFiles = [])
     (hncl : ¬ path ∈ s.sp.claimedFiles) (hcf : path ≠ s.sp.cacheFile) (habs : s.sp.fs.get path = none)
-    (hdm : dirsToMake (visible s.sp) s.sp.cacheFile s.sp.inProg path.dropLast = .ok made) :
+    (hdm : dirsToMake (visible s.sp) s.sp.cacheFile s.sp.inProg path.dropLast = .ok made)
+    (hlong : made.any Path.tooLong = false) :
     ∃ sp1, bfSetup sp path = .ok (sp1, made) ∧ SpecSt.Sim sp1 (replayS1 s path made raised).sp ∧
       sp1.pending = sp.pending ∧ sp1.claimedFiles = path :: sp.claimedFiles := by
   have hffs : s.sp.failFiles = [] := by rw [← hsim.failFiles, hff]
   have hdir : s.sp.fs.isDir path = false := by simp [FS.isDir, habs]
   have hb : bfSetup s.sp path = .ok (setupState s.sp path made, made) := by
     unfold bfSetup
-    simp [hncl, hcf, hdir, hdm, hffs]
+    simp [hncl, hcf, hdir, hdm, hffs, hlong]
   rcases sim_bfSetup hsim path with ⟨e, _, he⟩ | ⟨a1, b1, made', ha, hb', hs, hp1, _⟩
   · rw [hb] at he; cases he
   · rw [hb] at hb'
@@ -115,7 +116,7 @@ theorem bfFinish_error (s : SpecSt) (path : Path) (made : List Path) (e : Exc) :
 
 theorem bfFinish_notCreated (s : SpecSt) (path : Path) (made : List Path) (j : Json)
     (h : pendingFind s.pending path = none) :
-    bfFinish s path made (.ok j) = (.error (.runtime .notCreated), failSt s path made) := by
+    bfFinish s path made (.ok j) = (.error (notCreatedExc path), failSt s path made) := by
   unfold bfFinish failSt; simp only [h]
 
 theorem failSt_sim (sp2 : SpecSt) (s2 : KSt) (path : Path) (made : List Path) (h : SpecSt.Sim sp2 s2.sp) :
@@ -206,7 +207,7 @@ theorem replay_sound {ds : Nat} {prog : Prog} {t : Option Path} {ops : List Op} 
   | bfOk path cmp fname args kwargs body k t subs j c m0 ops r w _ _ ihb ihk =>
     intro sp s s' hsim hds hff hfs hwf hpc htc hfa hr
     obtain ⟨sm, h1, h2⟩ := (replayOps_cons _ _ _ _).mp hr
-    obtain ⟨_, hom, _, hncl, hcf, habs, made, s2, hdm, hs2, hsm⟩ :=
+    obtain ⟨_, hom, _, hncl, hcf, habs, made, s2, hdm, hlong, hs2, hsm⟩ :=
       replayOp_buildFile_some _ _ _ _ _ _ _ _ _ _ _ _ _ h1
     simp only [Bool.false_eq_true, if_false] at hsm
     obtain ⟨hpne, b, m, hshelf, heq⟩ := outputMatches_shelf s path cmp c m0 (hom rfl)
@@ -214,7 +215,7 @@ theorem replay_sound {ds : Nat} {prog : Prog} {t : Option Path} {ops : List Op} 
     obtain ⟨hfop, hfrest⟩ := hfa
     unfold FaithfulOp at hfop
     have hbc : b = c := hfop.1 rfl b m (Or.inr hshelf) heq
-    obtain ⟨sp1, hsetup, hsim1, hpend1, hcl1⟩ := setup_match sp s path made false hsim hff hncl hcf habs hdm
+    obtain ⟨sp1, hsetup, hsim1, hpend1, hcl1⟩ := setup_match sp s path made false hsim hff hncl hcf habs hdm hlong
     -- the function body, from scratch
     obtain ⟨s1', hs1'⟩ : ∃ x : SpecSt, x = { sp1 with invLog := ⟨fname, some path, args, kwargs⟩ :: sp1.invLog } :=
       ⟨_, rfl⟩
@@ -321,13 +322,13 @@ theorem replay_sound {ds : Nat} {prog : Prog} {t : Option Path} {ops : List Op} 
   | bfRaise path cmp fname args kwargs body k t subs e kept wb ops r w _ _ ihb ihk =>
     intro sp s s' hsim hds hff hfs hwf hpc htc hfa hr
     obtain ⟨sm, h1, h2⟩ := (replayOps_cons _ _ _ _).mp hr
-    obtain ⟨_, _, _, hncl, hcf, habs, made, s2, hdm, hs2, hsm⟩ :=
+    obtain ⟨_, _, _, hncl, hcf, habs, made, s2, hdm, hlong, hs2, hsm⟩ :=
       replayOp_buildFile_some _ _ _ _ _ _ _ _ _ _ _ _ _ h1
     simp only [if_true] at hsm
     unfold FaithfulOps at hfa
     obtain ⟨hfop, hfrest⟩ := hfa
     unfold FaithfulOp at hfop
-    obtain ⟨sp1, hsetup, hsim1, hpend1, hcl1⟩ := setup_match sp s path made true hsim hff hncl hcf habs hdm
+    obtain ⟨sp1, hsetup, hsim1, hpend1, hcl1⟩ := setup_match sp s path made true hsim hff hncl hcf habs hdm hlong
     obtain ⟨s1', hs1'⟩ : ∃ x : SpecSt, x = { sp1 with invLog := ⟨fname, some path, args, kwargs⟩ :: sp1.invLog } :=
       ⟨_, rfl⟩
     have hsim1' : SpecSt.Sim s1' (replayS1 s path made true).sp := by
@@ -413,13 +414,13 @@ theorem replay_sound {ds : Nat} {prog : Prog} {t : Option Path} {ops : List Op} 
   | bfNotCreated path cmp fname args kwargs body k t subs j ops r w _ _ ihb ihk =>
     intro sp s s' hsim hds hff hfs hwf hpc htc hfa hr
     obtain ⟨sm, h1, h2⟩ := (replayOps_cons _ _ _ _).mp hr
-    obtain ⟨_, _, _, hncl, hcf, habs, made, s2, hdm, hs2, hsm⟩ :=
+    obtain ⟨_, _, _, hncl, hcf, habs, made, s2, hdm, hlong, hs2, hsm⟩ :=
       replayOp_buildFile_some _ _ _ _ _ _ _ _ _ _ _ _ _ h1
     simp only [if_true] at hsm
     unfold FaithfulOps at hfa
     obtain ⟨hfop, hfrest⟩ := hfa
     unfold FaithfulOp at hfop
-    obtain ⟨sp1, hsetup, hsim1, hpend1, hcl1⟩ := setup_match sp s path made true hsim hff hncl hcf habs hdm
+    obtain ⟨sp1, hsetup, hsim1, hpend1, hcl1⟩ := setup_match sp s path made true hsim hff hncl hcf habs hdm hlong
     obtain ⟨s1', hs1'⟩ : ∃ x : SpecSt, x = { sp1 with invLog := ⟨fname, some path, args, kwargs⟩ :: sp1.invLog } :=
       ⟨_, rfl⟩
     have hsim1' : SpecSt.Sim s1' (replayS1 s path made true).sp := by
